@@ -111,6 +111,15 @@ impl Oracle for Identity {
                         ));
                     }
                 }
+                HandlerOut::Established(enr, sock, dir) if w.node_by_addr(sock).map(|j| w.nodes[j].id != enr.node_id().raw()).unwrap_or(false) => {
+                    // the party at `sock` proved to be node j; a record of ANOTHER identity must not be
+                    // reported as established there (e.g. through the answer to the record request)
+                    let j = w.node_by_addr(sock).unwrap();
+                    return Some((
+                        "identity/established-with-record-of-another-node".into(),
+                        format!("V reported node {} established at {sock} ({dir:?}), but the party there handshook as node {} (op {op:?})", enr.node_id(), ids::node_id(&w.nodes[j].id)),
+                    ));
+                }
                 HandlerOut::UnverifiableEnr { node_id, socket, .. } if w.is_attacker_addr(socket) && is_foreign(w, &node_id.raw()) => {
                     return Some((
                         "identity/unverifiable-enr-reported-for-impersonated-id".into(),
@@ -218,6 +227,10 @@ impl Property for C01 {
             .prop_map(|(mut cfg, ops)| {
                 // V answers who-are-you queries immediately in this property (the attacker needs the challenge)
                 cfg.wru_mode[0] = AppMode::Immediate;
+                // in a third of the cases peer 1's application answers record requests with a foreign record
+                if cfg.seqs.first().map(|s| s % 3 == 0).unwrap_or(false) {
+                    cfg.foreign_enr_answer = vec![1];
+                }
                 Case { cfg, ops }
             })
             .boxed()
